@@ -246,6 +246,7 @@ class FG:
         self.nlab = opts['labbase']
         self.ntmp = 0
         self.X, self.W, self.FR, self.DR = [], [], [], []
+        self.O = []                 # opaque registers (see opaque())
         self.P = []                 # PtrInfo usable in the whole function
         self.ptr_args = ptr_args    # [(regname, size, writable)]
         self.exit_label = None
@@ -520,15 +521,17 @@ class FG:
             return self.src32(allow_mem=r.random() < 0.3)
         raise ValueError(ty)
 
-    def res_dst(self, ty):
-        # results are extended to 64 bits at the boundary
-        return self.X_()
+    def res_dsts(self, tys):
+        # results are extended to 64 bits at the boundary; destinations pairwise distinct (the order
+        # in which several results are written is not specified)
+        regs = self.rng.sample(self.X, len(tys)) if len(tys) <= len(self.X) else None
+        return [R(x) for x in regs]
 
     def g_call_ext(self):
         r = self.rng
         cands = [e for e in EXTERNALS if all(t in INT_TYPES for t in e[2] + e[3])]
         eid, name, res, args = r.choice(cands)
-        ops = [Ref('p_' + name), Ref(name)] + [self.res_dst(t) for t in res]
+        ops = [Ref('p_' + name), Ref(name)] + self.res_dsts(res)
         ops += [self.arg_for(t) for t in args]
         self.emit('call', *ops)
         self.p.features.add('extcall:' + name)
@@ -538,7 +541,7 @@ class FG:
         if not self.callees: return self.g_call_ext()
         c = r.choice(self.callees)
         ops = [Ref(c['proto']), Ref(c['name'])]
-        ops += [self.res_dst(t) for t in c['res']]
+        ops += self.res_dsts(c['res'])
         for i, t in enumerate(c['args']):
             pi = c['ptrs'].get(i)
             if pi is not None:
@@ -565,7 +568,7 @@ class FG:
         self.emit('ble', lskip, R(s['depth_reg']), Imm(0))
         d = self.new_local('dp')
         self.emit('sub', R(d), R(s['depth_reg']), Imm(1))
-        ops = [Ref(s['proto']), Ref(self.f.name)] + [self.res_dst(t) for t in self.f.res]
+        ops = [Ref(s['proto']), Ref(self.f.name)] + self.res_dsts(self.f.res)
         for i, (t, rn) in enumerate(self.f.args):
             if rn == s['depth_reg']: ops.append(R(d))
             elif i in s['ptrs']: ops.append(R(rn))
@@ -589,19 +592,38 @@ class FG:
                     break
                 x -= w
 
+    def opaque(self):
+        """a register whose value GVN cannot know (assigned only from arguments / memory): comparing
+        against it keeps a branch from being folded at compile time.  Folded branches leave
+        unreachable loops behind, on which the -O2 pipeline of the pinned tree crashes or hangs
+        (known finding C01 unreachable-loop family), so by default every branch gets one."""
+        if self.O and self.rng.random() >= self.opts.get('p_constbr', 0.0):
+            return R(self.rng.choice(self.O))
+        return None
+
     def cond_branch(self, target):
         r = self.rng
         k = r.random()
+        o = self.opaque()
         if k < 0.35:
             op = r.choice(['beq', 'bne', 'blt', 'ble', 'bgt', 'bge', 'ublt', 'uble', 'ubgt', 'ubge'])
-            self.emit(op, target, self.src64(allow_mem=r.random() < 0.2), self.src64(allow_mem=False))
+            a, b = self.src64(allow_mem=r.random() < 0.2), self.src64(allow_mem=False)
+            if o is not None:
+                if r.random() < 0.5: a = o
+                else: b = o
+            self.emit(op, target, a, b)
         elif k < 0.65:
             op = r.choice(['beqs', 'bnes', 'blts', 'bles', 'bgts', 'bges', 'ublts', 'ubles', 'ubgts', 'ubges'])
-            self.emit(op, target, self.src32(allow_mem=False), self.src32(allow_mem=False))
+            a, b = self.src32(allow_mem=False), self.src32(allow_mem=False)
+            if o is not None:
+                if r.random() < 0.5: a = o
+                else: b = o
+            self.emit(op, target, a, b)
         elif k < 0.8:
-            self.emit(r.choice(['bt', 'bf']), target, self.src64(allow_mem=False) if r.random() < 0.9 else Imm(r.choice([0, 1])))
+            self.emit(r.choice(['bt', 'bf']), target, o if o is not None else
+                      (self.src64(allow_mem=False) if r.random() < 0.9 else Imm(r.choice([0, 1]))))
         else:
-            self.emit(r.choice(['bts', 'bfs']), target, self.src32(allow_mem=False))
+            self.emit(r.choice(['bts', 'bfs']), target, o if o is not None else self.src32(allow_mem=False))
 
     def ret_insn(self):
         r = self.rng
@@ -649,7 +671,25 @@ class FG:
                 self.emit('adds', R(wn), R(r.choice(int_args)), Imm(self.imm_val()))
             else:
                 self.emit('mov', R(wn), Imm(self.imm_val()))
-        self.emit('mov', R('fuel'), Imm(self.opts['fuel']))
+        for i in range(r.randrange(1, 4)):
+            on = 'o%d' % i
+            f.locals.append(('i64', on))
+            cands = [p_ for p_ in self.P if p_.size >= 8]
+            if int_args and (r.random() < 0.6 or not cands):
+                self.emit('mov', R(on), R(r.choice(int_args)))
+            elif cands:
+                p_ = r.choice(cands)
+                self.emit('mov', R(on), Mem(r.choice(['i64', 'u32', 'i16', 'u8']), r.randrange(0, p_.size - 7), p_.reg))
+            else:
+                # no argument and no buffer to read: ask the outside world
+                self.emit('call', Ref('p_ex0'), Ref('ex0'), R(on))
+            self.O.append(on)
+        if self.O and r.random() >= self.opts.get('p_constbr', 0.0):
+            # a loop bound the optimiser cannot know (a known one lets GVN fold the exit test)
+            self.emit('and', R('fuel'), R(r.choice(self.O)), Imm(3))
+            self.emit('add', R('fuel'), R('fuel'), Imm(self.opts['fuel']))
+        else:
+            self.emit('mov', R('fuel'), Imm(self.opts['fuel']))
         for pr, n in tops:
             # initialise the whole block bytewise / wordwise
             off = 0
@@ -665,7 +705,7 @@ class FG:
         self.exit_label = lret
         # label-address registers for jmpi
         la = None
-        if nblocks >= 3 and r.random() < 0.3:
+        if nblocks >= 3 and r.random() < self.opts.get('p_jmpi', 0.0):
             la = self.new_local('la')
             self.p.features.add('laddr/jmpi')
         for bi in range(nblocks):
@@ -686,7 +726,7 @@ class FG:
                 # switch over a masked value
                 ncase = r.choice([2, 4, 8])
                 sw = self.new_local('sw')
-                self.emit('and', R(sw), self.X_(), Imm(ncase - 1))
+                self.emit('and', R(sw), self.opaque() or self.X_(), Imm(ncase - 1))
                 self.emit('switch', R(sw), *[labs[r.randrange(nblocks)] for _ in range(ncase)])
                 self.p.features.add('switch')
             elif k < 0.58 and la is not None:
@@ -807,3 +847,104 @@ if __name__ == '__main__':
         print(p.harness_line('i,g0,g1,g2,g3'))
     else:
         sys.stdout.write(p.text())
+
+
+# ---- parsing the textual subset this generator prints (for hand-written corpus cases) ----------------
+def parse_text(text, args=None, oracle=None, regions=None):
+    """MIR text (one module; protos, imports, funcs; operands as printed by Program.text) -> Program.
+    Default inputs: the three standard regions, main's pointer args, two integer args."""
+    import re
+    p = Program()
+    cur = None
+    extid = {e[1]: e[0] for e in EXTERNALS}
+
+    def parse_op(s, names):
+        s = s.strip()
+        m = re.match(r'^(\w+):\s*(-?\d+)?\s*(?:\(\s*(\w+)\s*(?:,\s*(\w+)\s*(?:,\s*(\d+)\s*)?)?\))?$', s)
+        if m and (m.group(1) in TSIZE or m.group(1).startswith(('blk', 'rblk'))):
+            ty = m.group(1)
+            if ty.startswith(('blk', 'rblk')):
+                return Mem('%s:%s' % (ty, m.group(2)), 0, m.group(3))
+            return Mem(ty, int(m.group(2) or 0), m.group(3), m.group(4), int(m.group(5) or 1))
+        if re.match(r'^-?(0x[0-9a-fA-F]+|\d+)$', s):
+            return Imm(int(s, 0))
+        if re.match(r'^-?\d+\.\d*(e[-+]?\d+)?f$', s) or re.match(r'^-?\d+e[-+]?\d+f$', s):
+            return FImm(f32bits(float(s[:-1])))
+        if re.match(r'^-?\d+\.\d*(e[-+]?\d+)?$', s) or re.match(r'^-?\d+e[-+]?\d+$', s):
+            return DImm(f64bits(float(s)))
+        if re.match(r'^L\d+$', s) and s not in names:
+            return Lab(int(s[1:]))
+        if s in names:
+            return R(s)
+        return Ref(s)
+
+    for raw in text.split('\n'):
+        for line in raw.split(';'):
+            line = line.split('#')[0].strip()
+            if not line or line.startswith(('m:', 'endmodule')):
+                continue
+            m = re.match(r'^(\w+):\s*(proto|func)\s*(.*)$', line)
+            if m:
+                name, kind, rest = m.groups()
+                res, args_ = [], []
+                for part in [x.strip() for x in rest.split(',') if x.strip()]:
+                    mb = re.match(r'^(r?blk\d*):(\d+)\((\w+)\)$', part)
+                    if mb:
+                        args_.append(('%s:%s' % (mb.group(1), mb.group(2)), mb.group(3)))
+                    elif ':' in part:
+                        t, n = part.split(':')
+                        args_.append((t.strip(), n.strip()))
+                    else:
+                        res.append(part)
+                if kind == 'proto':
+                    p.add_item(('proto', name, res, [t for t, _ in args_]))
+                else:
+                    cur = Func(name, res, args_)
+                    p.add_item(('func', cur))
+                continue
+            if line.startswith('import'):
+                for n in line[6:].split(','):
+                    n = n.strip()
+                    p.add_item(('import', n, extid[n]))
+                continue
+            if line == 'endfunc':
+                cur = None
+                continue
+            if line.startswith('local'):
+                for part in line[5:].split(','):
+                    t, n = part.strip().split(':')
+                    cur.locals.append((t, n))
+                continue
+            m = re.match(r'^(L\d+):\s*(.*)$', line)
+            if m:
+                cur.body.append(Insn('label', [Lab(int(m.group(1)[1:]))]))
+                line = m.group(2).strip()
+                if not line:
+                    continue
+            names = set(n for _, n in cur.locals) | set(n for _, n in cur.args)
+            sp = line.split(None, 1)
+            op = sp[0]
+            ops = []
+            if len(sp) > 1:
+                # split on commas that are not inside parentheses
+                depth, curtok = 0, ''
+                for ch in sp[1]:
+                    if ch == '(': depth += 1
+                    if ch == ')': depth -= 1
+                    if ch == ',' and depth == 0:
+                        ops.append(curtok); curtok = ''
+                    else:
+                        curtok += ch
+                if curtok.strip(): ops.append(curtok)
+            cur.body.append(Insn(op, [parse_op(o, names) for o in ops]))
+    p.entry = 'main'
+    main = p.items[p.index['main']][1]
+    if regions is None:
+        regions = [(REGION_BASE, 64, True, bytes(range(1, 65))), (REGION_BASE + 0x100000, 32, True, bytes([0x22] * 32)),
+                   (REGION_BASE + 0x200000, 32, False, bytes([0x80 + i for i in range(32)]))]
+    p.regions = regions
+    if args is None:
+        args = [REGION_BASE, REGION_BASE + 0x100000, REGION_BASE + 0x200000, 0x123456789abcdef, -5][:len(main.args)]
+    p.args = args
+    p.oracle = oracle if oracle is not None else [7, -3, 0x100000001, 5, 6, 7, 8, 9]
+    return p
